@@ -10,7 +10,7 @@ FILES = {
     "include/nitro/lang/string.hpp": ["C17"],
     "include/nitro/format/format.hpp": ["C08"],
     "include/nitro/lang/fixed_vector.hpp": ["C06", "C07"],
-    "src/options/parser.cpp": ["C02", "C04", "C12", "C14", "C13"],
+    "src/options/parser.cpp": ["C02", "C04", "C12", "C14", "C13", "C15"],
     "src/options/toggle.cpp": ["C11", "C02"],
     "src/options/option.cpp": ["C03", "C02"],
     "src/options/multi_option.cpp": ["C03", "C02"],
